@@ -15,6 +15,13 @@ if os.path.exists(r1):
             log += line + "\n"
 if os.path.exists(r23):
     log += open(r23).read()
+# a complete re-run of the whole matrix (after round 5) supersedes the per-round logs; later rounds are appended
+full2 = os.path.join(ROOT, "selftest/last_run.full2.log")
+if os.path.exists(full2):
+    log = open(full2).read()
+    r6 = os.path.join(ROOT, "selftest/last_run.round6.log")
+    if os.path.exists(r6):
+        log += open(r6).read()
 if not log:
     log = open(os.path.join(ROOT, "selftest/last_run.log")).read()
 rows = []
@@ -54,7 +61,7 @@ for r in rows:
     base, origin, s = describe(r["name"])
     s = (s[:150] + "…") if len(s) > 150 else s
     s = s.replace("|", "/").replace("\n", " ")
-    target = base.split("-")[0].rstrip("xy") if base.startswith("C") else None
+    target = base.split("-")[0].rstrip("xyz") if base.startswith("C") else None
     tc = ""
     if target:
         tc = "yes" if target in r["caught"] else "**no**"
